@@ -110,3 +110,26 @@ void c10_part_topology()
 }
 template void c10_part_topology<ConformalMesh<Shape::Hypercube<1>, 1, double>>();
 template void c10_part_topology<ConformalMesh<Shape::Simplex<1>, 1, double>>();
+
+// custom mesh permutations: the inverse (re)builder of every shape (instantiation only)
+template<typename Shape_>
+void c10_perm_inverse()
+{
+  auto p_inv = &MeshPermutation<Shape_>::create_inverse_permutations;
+  (void)p_inv;
+}
+template void c10_perm_inverse<Shape::Hypercube<1>>();
+template void c10_perm_inverse<Shape::Hypercube<2>>();
+template void c10_perm_inverse<Shape::Simplex<1>>();
+template void c10_perm_inverse<Shape::Simplex<2>>();
+
+// boundary computation: plain and masked boundary factories (BoundaryFaceComputer::compute_all / compute_masks)
+#include <kernel/geometry/boundary_factory.hpp>
+template class FEAT::Geometry::BoundaryFactory<ConformalMesh<Shape::Hypercube<2>, 2, double>>;
+template class FEAT::Geometry::BoundaryFactory<ConformalMesh<Shape::Hypercube<3>, 3, double>>;
+template class FEAT::Geometry::BoundaryFactory<ConformalMesh<Shape::Simplex<2>, 2, double>>;
+template class FEAT::Geometry::BoundaryFactory<ConformalMesh<Shape::Simplex<3>, 3, double>>;
+template class FEAT::Geometry::MaskedBoundaryFactory<ConformalMesh<Shape::Hypercube<2>, 2, double>>;
+template class FEAT::Geometry::MaskedBoundaryFactory<ConformalMesh<Shape::Hypercube<3>, 3, double>>;
+template class FEAT::Geometry::MaskedBoundaryFactory<ConformalMesh<Shape::Simplex<2>, 2, double>>;
+template class FEAT::Geometry::MaskedBoundaryFactory<ConformalMesh<Shape::Simplex<3>, 3, double>>;
